@@ -586,6 +586,35 @@ func runC09(c *eng.Ctx, thorough bool) {
 			}
 		}
 	}
+	// a transaction's writes are recorded in the tracker before the next command of the same batch is
+	// looked at: later commands consult the tracker for their fast-path decision, so recording them only
+	// after the batch makes the verdict depend on how the log is cut into batches (seed C09-b)
+	if f := c.Fn("raft.(*FSM).applyBatchTxOps"); f != nil {
+		c.Clause("R3", "C09.4")
+		fin := instrsOf(eng.Calls(f, `fsmTxnCommitIndexApplicationState\)\.finishTxn$`))
+		succ := eng.SuccessReturns(f, 0)
+		site := "a committed transaction's writes are recorded before the next command"
+		if len(fin) == 0 {
+			c.Violation(f, site, f.Pos(), "applyBatchTxOps no longer records the transaction in the fast-path tracker (finishTxn) before it returns: later commands of the same batch do not see its writes", nil)
+		} else if h := eng.Reach(eng.Query{Fn: f, Barriers: fin, Target: eng.IsTarget(succ)}); h != nil {
+			c.Violation(f, site, h.Instr.Pos(), "applyBatchTxOps can report success without having recorded the transaction's writes (finishTxn)", h.Witness)
+		} else {
+			c.OK(f, site, fin[0].Pos(), "every nil-error return of applyBatchTxOps passes finishTxn")
+		}
+		c.Clause("R1", "C09.4")
+		if m, miss := c.P.StaticCallee("raft.(*fsmTxnCommitIndexApplicationState).finishTxn"); len(miss) == 0 {
+			c.CallerTable("fsmTxnCommitIndexApplicationState.finishTxn", c.P.FindCalls(m, nil), map[string]string{
+				"raft.(*FSM).applyBatchTxOps": "at the end of the transaction's own application, inside the batch loop",
+			}, 1)
+		} else {
+			c.Unresolved("raft.(*fsmTxnCommitIndexApplicationState).finishTxn")
+		}
+	}
+	if f := c.Fn("raft.(*FSM).applyBatchNonTxOps"); f != nil {
+		c.Clause("R3", "C09.4")
+		lw := eng.Calls(f, `fsmTxnCommitIndexApplicationState\)\.logWrite$`)
+		c.Floor(f, "writes recorded by non-transactional commands", len(lw), 1)
+	}
 	// writes are recorded under the command's own log index
 	for _, pr := range []struct{ fn, callee string }{
 		{"raft.(*fsmTxnCommitIndexApplicationState).logWrite", `fsmTxnCommitIndexTracker\)\.logWrite$`},
